@@ -135,7 +135,8 @@ def shard(ctx):
             check(ctx, hostile.bulk_statement(rng),
                   rng.choice([{}, {'strip_whitespace': True},
                               {'use_space_around_operators': True},
-                              {'reindent': True}, {'keyword_case': 'upper'}]),
+                              {'reindent': True},
+                              {'reindent_aligned': True}]),
                   ('bulk',))
             continue
         x = rng.random()
